@@ -56,6 +56,7 @@ def shards(tier):
         for f in range(BOUNDS[tier]['deep_alpha']):
             for g in (range(BOUNDS[tier]['deep_alpha']) if n == 5 else [None]):
                 out.append({'kind': 'deep', 'n': n, 'first': f, 'second': g})
+    out.append({'kind': 'many'})
     return out
 
 
@@ -88,6 +89,11 @@ def run_shard(shard, ctx, tier):
                     for sk in (1, 2):
                         guarded_check(mod, {'boxes': lst, 'skew': sk}, ctx)
                         guarded_check(mod, {'boxes': lst, 'skew': sk, 'lv': 1 + (sum(lst) + sk) % 3}, ctx)
+    elif shard['kind'] == 'many':
+        for layout in range(len(MANY_LAYOUTS)):
+            for sk in range(3):
+                for lv in (0, 2):
+                    guarded_check(mod, {'many': layout, 'skew': sk, 'lv': lv}, ctx)
     elif shard['kind'] == 'deep':
         n = shard['n']
         pre = [shard['first']] + ([shard['second']] if shard['second'] is not None else [])
@@ -102,6 +108,22 @@ def run_shard(shard, ctx, tier):
 
 
 LINE_COUNTS = [[2, 2, 2, 2, 2], [1, 0, 1, 0, 1], [0, 3, 1, 0, 2], [0, 0, 0, 0, 0]]      # text lines per region, by line variant
+
+
+def many_boxes(layout):
+    """pages with 12-16 regions (ids r10.. : more than one digit), as (x0, y0, x1, y1) boxes on the 1000 x 100 page"""
+    name = MANY_LAYOUTS[layout]
+    if name == 'two-columns-of-seven':
+        return [(40 + 480 * c, 4 + 13 * r, 460 + 480 * c, 14 + 13 * r) for r in range(7) for c in range(2)]
+    if name == 'grid-4x4-shuffled':
+        cells = [(20 + 240 * c, 5 + 23 * r, 230 + 240 * c, 22 + 23 * r) for r in range(4) for c in range(4)]
+        return [cells[(5 * i + 3) % 16] for i in range(16)]
+    if name == 'staircase-overlapping':
+        return [(20 + 60 * i, 5 + 6 * i, 200 + 60 * i, 25 + 6 * i) for i in range(12)]
+    return [(30, 3 + 7 * i, 900, 8 + 7 * i) for i in range(13)][::-1]            # 'one-column-bottom-up'
+
+
+MANY_LAYOUTS = ['two-columns-of-seven', 'grid-4x4-shuffled', 'staircase-overlapping', 'one-column-bottom-up']
 
 
 def build_page(polygons, skew_deg, lv=0, ints=False):
@@ -171,7 +193,11 @@ def run_sorter(name, param, page, ctx, gray=False):
 
 def check_case(case, ctx):
     from mc.core import CaseTimeout
-    if 'boxes' in case:
+    if 'many' in case:
+        polygons = [[(x0, y0), (x1, y0), (x1, y1), (x0, y1)] for (x0, y0, x1, y1) in many_boxes(case['many'])]
+        what = f'{len(polygons)} boxes, layout {MANY_LAYOUTS[case["many"]]}: {many_boxes(case["many"])}'
+        ctx.tag('more-than-nine-regions')
+    elif 'boxes' in case:
         polygons = [[(x0, y0), (x1, y0), (x1, y1), (x0, y1)] for (x0, y0, x1, y1) in (BOXES[i] for i in case['boxes'])]
         what = f'boxes {[BOXES[i] for i in case["boxes"]]}'
     elif 'deep' in case:
@@ -260,5 +286,5 @@ def describe(tier):
         'bounds': BOUNDS[tier], 'alphabets': {'boxes': len(BOXES), 'overlapping': OVERLAPPING, 'polygons': POLYS, 'skews': SKEWS,
                                                'FakeIntersectionParameter': INTERSECT, 'ImageWidthDenominator': DENOMS},
         'assumptions': ['geometry compared within 1e-6 (the smart sorter rotates by the de-skew angle and back)', 'region ids are unique'],
-        'min_nontrivial': 100, 'required_tags': ['integer-coordinate-arrays', 'order-actually-changed', 'de-skew-rotation-applied', 'mutually-overlapping-lists'],
+        'min_nontrivial': 100, 'required_tags': ['more-than-nine-regions', 'integer-coordinate-arrays', 'order-actually-changed', 'de-skew-rotation-applied', 'mutually-overlapping-lists'],
     }
